@@ -262,6 +262,10 @@ package tree
 //@   ensures[success-means-stored] result == nil ==> stmtFail == old(stmtFail)
 //@   ensures[never-the-syncers-inconsistency-error] plainErr(result)
 //@   ensures[callback-iff-success] undoCnt(tx) == old(undoCnt(tx)) + ite(result == nil, 1, 0)
+// a leaf is only ever appended at the position after the last one - the one the in-memory index names or, when that
+// does not match, the one after the last stored root (the frontier is rebuilt first); any other position is refused
+//@   ensures[appended-only-at-the-next-position] result == nil ==> t.lastIndex == leaf.Index && (leaf.Index == old(t.lastIndex) + 1 || leaf.Index == rootLastIdx(t.Tree) + 1)
+//@   ensures[other-positions-are-an-invalid-index] (leaf.Index != old(t.lastIndex) + 1 && leaf.Index != rootLastIdx(t.Tree) + 1) ==> result != nil
 //@   ensures[root-row-iff-success] result != nil ==> rootHas(t.Tree) == old(rootHas(t.Tree)) || rootHas(t.Tree) == upd(old(rootHas(t.Tree)), leaf.Index, true)
 //@   loop 0 unroll 32
 
